@@ -80,6 +80,7 @@ class Teardown:
     def on_moveout(self, eng, ev, st):
         b, f = ev.box, ev.field
         self.sites["moveout"].add((ev.b, f))
+        eng.obl("TS-1", "moveout:%s" % f, ev.b)
         for fl in st.flags:
             if (fl[0] in ("mv", "xfer") and fl[1] == b and fl[2] == f) or (fl[0] == "held" and fl[2] == b and fl[3] == f) or (fl[0] == "dropped" and fl[1] == b and fl[2] == f):
                 eng.violate("TS-1", "double-moveout:%s" % f, "field `%s` of %s is moved out a second time on one path" % (f, show(b)), ev.b, st)
@@ -110,6 +111,8 @@ class Teardown:
                 gone.add(fl)
                 new.add(("dropped", hit[0], hit[1]))
                 self.sites["destroy"].add((ev.b, hit[1]))
+                eng.obl("TS-2", "destroy:%s" % hit[1], ev.b)
+                eng.obl("TS-5", "consumed:%s" % hit[1], ev.b)
                 if user and not (st.strong(hit[0]) <= DEAD):
                     eng.violate("TS-2", "destructor-before-dead", "the destructor of the value moved out of %s runs while that object is not marked dead (strong-state %s)" % (show(hit[0]), "".join(sorted(st.strong(hit[0])))), ev.b, st)
         if gone:
@@ -161,6 +164,9 @@ class Teardown:
         st = rem(st, lambda f: f[0] == "wz" and (f[1] == b or not st.distinct(f[1], b)))
         if ev.cls == "dec":
             self.sites["release"].add(ev.b)
+            eng.obl("TS-3", "release", ev.b)
+            if unwinding:
+                eng.obl("UNW-1", "release-in-cleanup", ev.b)
             if ("decw", b) in st.flags:
                 eng.violate("TS-3", "double-release", "the weak count of %s is lowered twice on one path%s" % (show(b), " (unwinding)" if unwinding else ""), ev.b, st)
             dead = st.strong(b) <= DEAD
@@ -184,6 +190,7 @@ class Teardown:
     def on_free(self, eng, ev, st):
         b = ev.ptr
         self.sites["free"].add(ev.b)
+        eng.obl("TS-4", "free", ev.b)
         if ("freed", b) in st.flags:
             eng.violate("TS-4", "double-free", "%s is freed twice on one path" % show(b), ev.b, st)
         if is_box_ptr(b, eng):
@@ -199,6 +206,7 @@ class Teardown:
         return None
 
     def on_return(self, eng, ev, st):
+        eng.obl("TS-5", "return", ev.b)
         for fl in st.flags:
             if fl[0] == "mv":
                 if not (sub(ev.value, fl[3]) or ev.value == fl[3]):
@@ -227,6 +235,8 @@ class Borrows:
 
     def on_borrow(self, eng, ev, st):
         self.guard_sites.add(ev.b)
+        eng.obl("BRW-2", "borrow", ev.b)
+        eng.obl("BRW-3", "guard", ev.b)
         for (g, gbox, gmut) in st.guards:
             if not (ev.mut or gmut):
                 continue
@@ -237,6 +247,7 @@ class Borrows:
         return None
 
     def _user(self, eng, ev, st):
+        eng.obl("BRW-1", "user-code-site", ev.b)
         for (g, gbox, gmut) in st.guards:
             eng.violate("BRW-1", "user-code-under-guard", "user code (%s) can run while a %s guard on the link table of %s is live" % (
                 ev.get("ty") or ev.get("method") or ev.kind, "mut" if gmut else "shared", show(gbox) if gbox else "?"), ev.b, st)
